@@ -1,4 +1,5 @@
 import Ovsdb.Generated.Facts
+import Ovsdb.Model.Naming
 import Ovsdb.Model.Server
 /-
   Theorems over the facts extracted from /repo's source on this run
@@ -45,6 +46,11 @@ theorem cache_no_lock_left_behind : cacheUnbalanced = [] := by decide
 theorem client_guarded_fields_under_mutex : clientUnguarded = [] := by decide
 /-- every use of the server's monitor table is made under monitorMutex -/
 theorem server_guarded_fields_under_mutex : serverUnguarded = [] := by decide
+
+/-- every key of modelgen's initialism table is written in capitals (`expandInitilaisms` looks the
+    upper-cased word up: a key with another character could never match) -/
+theorem initialisms_are_capitals :
+    (modelgenInitialisms.map Naming.ofString).all (fun s => !s.isEmpty && s.all Naming.isUpper) = true := by decide
 
 /-- Transact: lock, deferred unlock, execute, notify, commit: exactly the
     micro-steps of the model, under the mutex -/
